@@ -192,6 +192,11 @@ def forward_derived(body, seeds, defs=None, through_calls=False):
                     if any(l in derived for l in rv_read_locals(rv)[:1]):
                         derived.add(lhs['l'])
                         changed = True
+                elif through_calls and rv['k'] in ('bin', 'un'):
+                    # comparisons / negations of a derived value (only when the caller asked for the wide closure)
+                    if any(l in derived for l in rv_read_locals(rv)):
+                        derived.add(lhs['l'])
+                        changed = True
             t = blk['term']
             if through_calls and t and t['k'] == 'call' and not t['dest'].get('p') and t['dest']['l'] not in derived:
                 for a in t['args']:
